@@ -107,7 +107,7 @@ func c05RenameDuringClose(c *ev.Ctx) {
 		if _, ok, o, d := cb.p.WaitTag(90, from); !ok {
 			hang(c, o, d, "C05:rename-never-answered:rename-during-close:"+variant, det)
 		}
-		out, dump := quiesce.Await(ca.p.HandleDone, 60*time.Second)
+		out, dump := quiesce.Await(ca.p.HandleDone, wd)
 		hang(c, out, dump, "C05:Handle-does-not-return:rename-during-close:"+variant, det)
 		ca.p.Close()
 		out, dump = cb.p.Close()
@@ -259,7 +259,7 @@ func c05CutPoints(c *ev.Ctx) {
 			} else {
 				p.C.Close()
 			}
-			out, dump := quiesce.Await(p.HandleDone, 60*time.Second)
+			out, dump := quiesce.Await(p.HandleDone, wd)
 			det := map[string]any{"script": k, "cut_at": cut, "stream_bytes": len(stream)}
 			if out != quiesce.CondMet {
 				hang(c, out, dump, "C05:Handle-does-not-return:cut", det)
@@ -321,7 +321,7 @@ func c05InFlight(c *ev.Ctx) {
 				for _, j := range order {
 					gates[j].Release()
 				}
-				out, dump := quiesce.Await(p.HandleDone, 60*time.Second)
+				out, dump := quiesce.Await(p.HandleDone, wd)
 				det := map[string]any{"parked": k, "release_order": order}
 				if out != quiesce.CondMet {
 					hang(c, out, dump, "C05:Handle-does-not-return:inflight", det)
@@ -493,7 +493,7 @@ func c05TeardownRace(c *ev.Ctx) {
 			if _, ok, o, d := cb.p.WaitTag(90, from); !ok {
 				hang(c, o, d, "C05:rename-never-answered-after-other-connection-ended:"+sc.name, det)
 			}
-			outA, dumpA := quiesce.Await(ca.p.HandleDone, 60*time.Second)
+			outA, dumpA := quiesce.Await(ca.p.HandleDone, wd)
 			hang(c, outA, dumpA, "C05:Handle-does-not-return:teardown-race:"+sc.name, det)
 			// B keeps working afterwards
 			if r := cb.p.RPC(wire.Tgetattr, da, u(0x3fff)); !r.OK {
